@@ -21,7 +21,7 @@ SD = T.subdir_name(T.T0)
 FILES = [
     ("A1", "chA", "rf@%d.000.h5" % (T.T0 + 0), (T.T0 + 0) * 1000, 100),
     ("A2", "chA", "rf@%d.000.h5" % (T.T0 + 2), (T.T0 + 2) * 1000, 170),
-    ("A3", "chA", "rf@%d.000.h5" % (T.T0 + 4), (T.T0 + 4) * 1000, 130),
+    ("A3", "chA", "rf@%d.000.h5" % (T.T0 + 5), (T.T0 + 5) * 1000, 130),
     ("B1", "chB/metadata", "metadata@%d.h5" % (T.T0 + 0), (T.T0 + 0) * 1000, 60),
     ("B2", "chB/metadata", "metadata@%d.h5" % (T.T0 + 3), (T.T0 + 3) * 1000, 90),
 ]
@@ -50,13 +50,13 @@ def configs(tier):
     out = []
     for size in (None, minsize, allsize - 1, allsize):
         for count in (None, 1, 2):
-            for duration in (None, SPACING, 4000):
+            for duration in (None, SPACING, 5000):
                 if size is None and count is None and duration is None:
                     continue
                 out.append((size, count, duration))
     if tier == "quick":
         keep = [(minsize, None, None), (allsize - 1, None, None), (None, 1, None), (None, 2, None), (None, None, SPACING),
-                (minsize, 2, None), (allsize - 1, None, SPACING), (minsize, 1, SPACING), (None, 2, 4000), (allsize, 2, 4000),
+                (minsize, 2, None), (allsize - 1, None, SPACING), (minsize, 1, SPACING), (None, 2, 5000), (allsize, 2, 5000),
                 (allsize, None, None), (minsize, 2, SPACING)]
         out = [c for c in out if c in keep]
     return out
@@ -278,6 +278,9 @@ class World:
         # an event for a file that is not on disk is dropped by the handler: it reports nothing
         newly_reported = [q for q in newly_reported if q in on_disk_at_dispatch]
         self.reported = set(newly_reported) | set(q for q in reported_only if q in on_disk_at_dispatch)
+        # paths the current event itself declares gone (source of a move): they do not count as tracked
+        # files when a deletion in this same event is judged
+        self.gone_by_event = {p} if kind in ("move_to", "move_out") and p else set()
         return log, exc, newly_reported
 
 
@@ -326,7 +329,7 @@ def check_transition(world, cfg, pre, ev, log, exc, newly, post):
         grp_keys = [k for q, (k, s, g) in tracked.items() if g[0] == os.path.join(top, FID[fid][1])]
         if any(k < key for k in grp_keys):
             errs.append(({"class": "deleted_newer_than_kept", "event": ev[0]}, "%s deleted while an older file of its channel is kept" % fid))
-        full = dict(tracked)
+        full = {q: v for q, v in tracked.items() if q not in getattr(world, "gone_by_event", ())}
         sz = known_size
         if sz is None:
             # the handler's own record was not observable: be lenient, take the larger of the
